@@ -8,6 +8,7 @@ import (
 	"fmt"
 	"path/filepath"
 	"runtime"
+	"strings"
 	"sync"
 	"time"
 
@@ -141,4 +142,25 @@ func (id *Identity) MustSign(b *schema.Builder, sigTime time.Time) *test.Blob {
 		panic(fmt.Sprintf("vsign: %v", err))
 	}
 	return tb
+}
+
+var (
+	ssMu sync.Mutex
+	ss   = map[string]*schema.Signer{}
+)
+
+// SchemaSigner returns the schema.Signer (the signer servers, importers and clients go through) of id.
+func (id *Identity) SchemaSigner() (*schema.Signer, error) {
+	must()
+	ssMu.Lock()
+	defer ssMu.Unlock()
+	if s, ok := ss[id.Name]; ok {
+		return s, nil
+	}
+	s, err := schema.NewSigner(id.Ref, strings.NewReader(id.Armored), id.ring)
+	if err != nil {
+		return nil, err
+	}
+	ss[id.Name] = s
+	return s, nil
 }
